@@ -270,6 +270,17 @@ LiveSizingCheck(e) ==
         /\ IF srvBad # {} THEN Fail(e, "live-sizing:server-not-sized-for-its-jobs", srvBad) ELSE TRUE
         /\ IF stoBad # {} THEN Fail(e, "live-sizing:storage-not-sized-for-its-jobs", stoBad) ELSE TRUE
 
+(* C03 off the hour lattice: a job's series across usage patterns is the sum of its per-usage-pattern entries at every       *)
+(* instant (minutes since the epoch; 7 significant digits of the largest value)                                              *)
+ValAt(s, t) == IF \E k \in DOMAIN s.t : s.t[k] = t THEN s.v[CHOOSE k \in DOMAIN s.t : s.t[k] = t] ELSE 0
+RECURSIVE SumPerAt(_, _, _)
+SumPerAt(per, t, k) == IF k = 0 THEN 0 ELSE ValAt(per[k], t) + SumPerAt(per, t, k - 1)
+AcrossSumsCheck(e) ==
+    LET T == SeqSet(e.across.t) \cup UNION {SeqSet(e.per[k].t) : k \in DOMAIN e.per}
+        bad == {<<t, "across", ValAt(e.across, t), "sum of the entries", SumPerAt(e.per, t, Len(e.per))>> : t \in {x \in T :
+                   Abs(ValAt(e.across, x) - SumPerAt(e.per, x, Len(e.per))) > Len(e.per) + 1}}
+    IN  IF bad # {} THEN Fail(e, "across-usage-patterns-is-not-the-sum-of-the-entries:" \o e.attr, <<e.job, e.zones, bad>>) ELSE TRUE
+
 Step ==
     /\ i < N
     /\ i' = i + 1
@@ -281,6 +292,7 @@ Step ==
          [] e.ev = "Call" -> CallCheck(e)
          [] e.ev = "FloatModel" -> FloatCheck(e)
          [] e.ev = "LiveSizing" -> LiveSizingCheck(e)
+         [] e.ev = "AcrossSums" -> AcrossSumsCheck(e)
 
 Init == i = 0
 Next == Step
